@@ -183,9 +183,9 @@ def build(flags, c0, D):
 
 def c07_question(D_is_L1: bool, f0: bool, f1: bool, f2: bool, f3: bool, f4: bool, f5: bool, f6: bool, f7: bool, f8: bool, f9: bool, c0: int) -> bool:
     """
-    pre: f0 or f1 or f2
-    pre: 33 <= c0 <= 126 and c0 != 36
-    post: _ == True
+    vpre: f0 or f1 or f2
+    vpre: 33 <= c0 <= 126 and c0 != 36
+    vpost: _ == True
     """
     flags = (f0, f1, f2, f3, f4, f5, f6, f7, f8, f9)
     D = "L1" if D_is_L1 else "default"
@@ -217,9 +217,9 @@ def c07_question(D_is_L1: bool, f0: bool, f1: bool, f2: bool, f3: bool, f4: bool
 
 def c08_question(D_is_L1: bool, f0: bool, f1: bool, f2: bool, f3: bool, f4: bool, f5: bool, f6: bool, f7: bool, f8: bool, f9: bool, c0: int) -> bool:
     """
-    pre: f0 or f1 or f2
-    pre: 33 <= c0 <= 126 and c0 != 36
-    post: _ == True
+    vpre: f0 or f1 or f2
+    vpre: 33 <= c0 <= 126 and c0 != 36
+    vpost: _ == True
     """
     flags = (f0, f1, f2, f3, f4, f5, f6, f7, f8, f9)
     D = "L1" if D_is_L1 else "default"
